@@ -229,11 +229,22 @@ func genLocs(r *vh.RNG, kinds map[string]bool) map[string]string {
 		j := r.Intn(i + 1)
 		attrs[i], attrs[j] = attrs[j], attrs[i]
 	}
+	// header-carried credentials may share one header (alternative schemes reading the same
+	// Authorization / X-Auth header): the client can then send a single value for the group
+	var lastHeader string // "" = none yet, "implicit" or "header:<Name>"
+	share := r.Chance(1, 3)
 	for _, a := range attrs {
 		c := r.Intn(5)
+		if share && lastHeader != "" && c != 2 && c != 3 {
+			if lastHeader != "implicit" {
+				locs[a] = lastHeader
+			}
+			continue
+		}
 		switch {
 		case c <= 1 && implicitFree:
 			implicitFree = false // unmapped: goa puts it in Authorization
+			lastHeader = "implicit"
 		case c == 2:
 			locs[a] = "query:q" + a
 		case c == 3 && bodyFree:
@@ -241,6 +252,7 @@ func genLocs(r *vh.RNG, kinds map[string]bool) map[string]string {
 			locs[a] = "body"
 		default:
 			locs[a] = "header:X-" + strings.ToUpper(a[:1]) + a[1:]
+			lastHeader = locs[a]
 		}
 	}
 	return locs
@@ -345,6 +357,29 @@ func coveringDesigns() []*builtDesign {
 		add(methodSpec{Name: "inline_body", Own: []dg.Requirement{{Schemes: []string{"jwt", "bas"}}}, Required: false, Locs: map[string]string{attrToken: "inline-body"}})
 		add(methodSpec{Name: "none"})
 		add(methodSpec{Name: "open", NoSec: true})
+		d.Services = []*dg.Service{s}
+		out = append(out, bd)
+	}
+	// 2: two or three header-carried schemes sharing one header
+	{
+		d := &dg.Design{Name: "cover2", Schemes: []dg.Scheme{{Kind: "apikey", Name: "key"},
+			{Kind: "jwt", Name: "jwt", Scopes: []string{"api:read"}}, {Kind: "oauth2", Name: "oa", Scopes: []string{"o:x"}}}}
+		s := &dg.Service{Name: "svc"}
+		bd := &builtDesign{D: d, Specs: map[string]methodSpec{}}
+		add := func(ms methodSpec) {
+			s.Methods = append(s.Methods, buildMethod(d, s, ms))
+			bd.Specs[s.Name+"/"+ms.Name] = ms
+		}
+		one := func(n string) dg.Requirement { return dg.Requirement{Schemes: []string{n}} }
+		add(methodSpec{Name: "alt_bearer", Own: []dg.Requirement{one("jwt"), one("oa")}})                                                      // both on the implicit Authorization header
+		add(methodSpec{Name: "both_bearer", Own: []dg.Requirement{{Schemes: []string{"jwt", "oa"}, Scopes: []string{"o:x"}}}, Required: true}) // same, one requirement
+		add(methodSpec{Name: "three_share", Own: []dg.Requirement{one("oa"), one("key"), one("jwt")}})                                         // three schemes, one implicit header
+		add(methodSpec{Name: "explicit_share", Own: []dg.Requirement{{Schemes: []string{"jwt", "key"}}, one("oa")}, Required: true,
+			Locs: map[string]string{attrToken: "header:X-Auth", attrKey: "header:X-Auth", attrAToken: "query:at"}})
+		add(methodSpec{Name: "alt_explicit", Own: []dg.Requirement{one("key"), one("jwt")},
+			Locs: map[string]string{attrToken: "header:X-Auth", attrKey: "header:X-Auth"}})
+		add(methodSpec{Name: "explicit_authorization", Own: []dg.Requirement{one("key"), one("oa")},
+			Locs: map[string]string{attrAToken: "header:Authorization", attrKey: "header:Authorization"}})
 		d.Services = []*dg.Service{s}
 		out = append(out, bd)
 	}
